@@ -29,5 +29,7 @@ reg(Prop('C03', 'Kevo.Props.C03', facts=['facts:wal.*', 'facts:storage.*', 'fact
          rule=_RULE + ' Plus component walfault with the all-or-nothing-per-batch oracle on every cut offset (torn writes): this is the recorded '
               'finding KF-C03-torn-batch (no batch frame / commit marker in the log format). Plus implementation-only component txvis: plain '
               'readers read the first and the last key of transactions being committed (yield hook between the memtable inserts): '
-              'the second read is never older than the first. Plus component engine (the harness overwrites its key/value buffers after '
+              'the second read is never older than the first; and scenario failcommit: a commit rejected by the log (an entry larger than '
+              'one log record at any position of the write set) leaves no key of the transaction visible now or after a restart, '
+              'closes the transaction and frees the write lock (this found D17a, repaired by 685afc8; Lean: rejected_commit_no_trace). Plus component engine (the harness overwrites its key/value buffers after '
               'every tx.Put / tx.Delete: captured at call time; last operation per key wins).', assumptions=_ASSUME))
